@@ -1,9 +1,9 @@
 package main
 
 import (
-	"go/constant"
-	"go/ast"
 	"fmt"
+	"go/ast"
+	"go/constant"
 	"go/token"
 	"sort"
 	"strings"
@@ -559,7 +559,7 @@ func runC14(r *Report) {
 		}
 		ok := len(reads) > 0 && len(writes) > 0
 		for _, c := range append(append([]ssa.CallInstruction{}, reads...), writes...) {
-			if ls.Held(c.(ssa.Instruction), "listMu") != "W" {
+			if r.held(ls, c.(ssa.Instruction), "internal/core/storage/hybrid", "Storage", "listMu") != "W" {
 				ok = false
 			}
 		}
